@@ -1,8 +1,8 @@
 /-
 Soundness of the value-path validator (Model/Validate.lean) w.r.t. the grammar `JValue`
-(Spec/Grammar.lean), WITHOUT the uniqueness-of-names side condition: whatever
-`consumeValue` accepts is a value of the grammar with `allowDup := true`
-(structure, literals, numbers, strings in the selected UTF-8 mode, nesting ≤ maxNestingDepth).
+(Spec/Grammar.lean): whatever `consumeValue` accepts is a value of the grammar instance selected by
+the options (structure, literals, numbers, strings in the selected UTF-8 mode, nesting ≤
+maxNestingDepth, and — unless duplicates are allowed — member names pairwise different after unescaping).
 -/
 import JsonV.Model.Validate
 import JsonV.Spec.Grammar
@@ -14,10 +14,14 @@ namespace JsonV.Lemmas.WireValue
 open JsonV JsonV.Model JsonV.Model.Wire JsonV.Model.Validate JsonV.Spec.Grammar
 open JsonV.Lemmas.WireBasic JsonV.Lemmas.WireNumber JsonV.Lemmas.WireString
 
-/-- the grammar options the soundness theorem speaks about: UTF-8 mode as selected, duplicates not judged -/
-def G (o : VOpts) : GOpts := ⟨!o.allowInvalidUTF8, true⟩
+/-- the grammar options selected by the decoder options -/
+def G (o : VOpts) : GOpts := ⟨!o.allowInvalidUTF8, o.allowDup⟩
 
-abbrev JV (o : VOpts) (d : Nat) (p : Bytes) : Prop := JValue (G o) maxNestingDepth id d p
+/-- the text member names are compared by: the model of what `objectNamespace.insertQuoted` stores for the
+quoted name `q` (unescaped by AppendUnquote, or the inner bytes when the scanner found it verbatim) -/
+def nameKey (o : VOpts) (q : Bytes) : Bytes := unescapedName q (valueString o q).2.1
+
+abbrev JV (o : VOpts) (d : Nat) (p : Bytes) : Prop := JValue (G o) maxNestingDepth (nameKey o) d p
 
 theorem jws_nil : JWs [] := by intro c hc; simp at hc
 theorem jws_append (a b : Bytes) (ha : JWs a) (hb : JWs b) : JWs (a ++ b) := by
@@ -80,6 +84,31 @@ theorem valueString_sound (o : VOpts) (r : Bytes) (n : Nat) (fl : ValueFlags) (h
     rw [h.1] at this
     exact consumeString_sound r _ n _ this
   · exact consumeString_sound r _ n fl h
+
+/-- scanning exactly the accepted string again gives the same answer (offset and flags): the scanners do not
+look past the closing quote -/
+theorem valueString_take (o : VOpts) (r : Bytes) (n : Nat) (fl : ValueFlags) (h : valueString o r = (n, fl, .ok)) :
+    valueString o (r.take n) = (n, fl, .ok) := by
+  obtain ⟨hn, body, hj, htake⟩ := valueString_sound o r n fl h
+  have hr : r = 0x22 :: (body ++ 0x22 :: r.drop n) := by
+    conv => lhs; rw [← List.take_append_drop n r, htake]
+    simp
+  have hlen : n = body.length + 2 := by
+    have := congrArg List.length htake
+    simp only [List.length_take, List.length_cons, List.length_append, List.length_nil] at this
+    omega
+  obtain ⟨f, hf⟩ := consumeString_of_body (!o.allowInvalidUTF8) body hj
+  have htake' : r.take n = 0x22 :: (body ++ 0x22 :: []) := by rw [htake]
+  rw [htake']
+  rw [hr] at h
+  unfold valueString at h ⊢
+  simp only at h ⊢
+  rw [simple_indep body (r.drop n)] at h
+  have e1 : consumeStringResumable (0x22 :: (body ++ 0x22 :: r.drop n)) 0 (!o.allowInvalidUTF8) = (body.length + 2, f, .ok) := hf _
+  have e2 : consumeStringResumable (0x22 :: (body ++ [0x22])) 0 (!o.allowInvalidUTF8) = (body.length + 2, f, .ok) := hf []
+  rw [e1] at h
+  rw [e2]
+  exact h
 
 theorem valueNumber_sound (r : Bytes) (n : Nat) (h : valueNumber r = (n, .ok)) : n ≤ r.length ∧ JNumber (r.take n) := by
   have key : ∀ n, consumeNumber r = (n, .ok) → n ≤ r.length ∧ JNumber (r.take n) := by
@@ -283,7 +312,8 @@ def MemOk (o : VOpts) (m : Mem) : Prop :=
 def PObjLoop (o : VOpts) (fuel : Nat) : Prop :=
   ∀ d names r n, d + 1 ≤ maxNestingDepth → objectLoop o fuel (d + 2) names r = (n, .ok) →
     n ≤ r.length ∧ ∃ mems : List Mem, mems ≠ [] ∧ (∀ m ∈ mems, MemOk o m) ∧
-      (∀ m ∈ mems, JV o (d + 1) m.2.2.2.2.1) ∧ r.take n = joinSep (mems.map memBytes) ++ [0x7D]
+      (∀ m ∈ mems, JV o (d + 1) m.2.2.2.2.1) ∧ r.take n = joinSep (mems.map memBytes) ++ [0x7D] ∧
+      (o.allowDup = false → names.Nodup → (names ++ mems.map fun m => nameKey o m.2.1).Nodup)
 
 theorem objLoop_step (o : VOpts) (fuel : Nat) (hv : PValue o fuel) (hl : PObjLoop o fuel) : PObjLoop o (fuel + 1) := by
   intro d names r n hd h
@@ -301,8 +331,15 @@ theorem objLoop_step (o : VOpts) (fuel : Nat) (hv : PValue o fuel) (hl : PObjLoo
     have he0 : e0 = .ok := by simpa using hne0
     subst he0
     obtain ⟨hnn, hstr⟩ := valueString_sound o _ nn fl hvs
+    have hkey : nameKey o ((c0 :: ra0).take nn) = unescapedName ((c0 :: ra0).take nn) fl := by
+      unfold nameKey; rw [valueString_take o _ nn fl hvs]
     split at h
     · simp at h
+    rename_i hdup
+    have hnotin : o.allowDup = false → (unescapedName ((c0 :: ra0).take nn) fl) ∉ names := by
+      intro ha hmem
+      apply hdup
+      simp [ha, hmem]
     split at h
     · simp at h
     rename_i c rc hdrop2
@@ -365,8 +402,8 @@ theorem objLoop_step (o : VOpts) (fuel : Nat) (hv : PValue o fuel) (hl : PObjLoo
         (if o.allowDup = true then names else names ++ [unescapedName ((c0 :: ra0).take nn) fl]) rf with ⟨n', e'⟩
       simp only [addOff, hal, Prod.mk.injEq] at h
       obtain ⟨rfl, rfl⟩ := h
-      obtain ⟨hn', mems, hne', hok, hvals, htake⟩ := hl d _ rf n' hd hal
-      refine ⟨by omega, m0 :: mems, by simp, ?_, ?_, ?_⟩
+      obtain ⟨hn', mems, hne', hok, hvals, htake, hnod⟩ := hl d _ rf n' hd hal
+      refine ⟨by omega, m0 :: mems, by simp, ?_, ?_, ?_, ?_⟩
       · intro m hm
         simp only [List.mem_cons] at hm
         rcases hm with rfl | hm
@@ -383,12 +420,25 @@ theorem objLoop_step (o : VOpts) (fuel : Nat) (hv : PValue o fuel) (hl : PObjLoo
             (consumeWhitespace rc + k + consumeWhitespace ((c1 :: rd0).drop k)) + 1 + n' := by omega
         rw [e2, hcut n', htake, List.map_cons, joinSep_cons_ne _ _ (by simpa using hne'), hc2]
         simp [List.append_assoc]
+      · intro ha hn
+        have hni := hnotin ha
+        simp only [ha, Bool.false_eq_true, if_false] at hnod
+        have := hnod trivial (by
+          rw [List.nodup_append]
+          exact ⟨hn, by simp, by intro a ha' b hb; simp at hb; subst hb; intro hab; subst hab; exact hni ha'⟩)
+        simpa [m0, hkey, List.append_assoc] using this
     · split at h
       · rename_i hclose
         have hc2 : c2 = 0x7D := by simpa using hclose
         simp only [Prod.mk.injEq, and_true] at h
         subst h
-        refine ⟨by omega, [m0], by simp, ?_, ?_, ?_⟩
+        refine ⟨by omega, [m0], by simp, ?_, ?_, ?_, ?_⟩
+        rotate_left 3
+        · intro ha hn
+          have hni := hnotin ha
+          simp only [List.map_cons, List.map_nil, m0, hkey]
+          rw [List.nodup_append]
+          exact ⟨hn, by simp, by intro a ha' b hb; simp at hb; subst hb; intro hab; subst hab; exact hni ha'⟩
         · intro m hm
           simp only [List.mem_singleton] at hm
           subst hm; exact hm0
@@ -432,7 +482,7 @@ theorem obj_step (o : VOpts) (fuel : Nat) (hl : PObjLoop o fuel) : PObj o (fuel 
       · rcases hal : objectLoop o fuel (d + 1 + 1) [] (c :: rest) with ⟨n', e'⟩
         simp only [addOff, hal, Prod.mk.injEq] at h
         obtain ⟨rfl, rfl⟩ := h
-        obtain ⟨hn', mems, hne', hok, hvals, htake⟩ := hl d [] (c :: rest) n' hd' hal
+        obtain ⟨hn', mems, hne', hok, hvals, htake, hnod⟩ := hl d [] (c :: rest) n' hd' hal
         have hn'' : n' ≤ rest.length + 1 := by simpa using hn'
         refine ⟨by omega, ?_⟩
         cases mems with
@@ -448,7 +498,15 @@ theorem obj_step (o : VOpts) (fuel : Nat) (hl : PObjLoop o fuel) : PObj o (fuel 
             rw [this, joinSep_cons_append]
             simp [List.append_assoc]
           rw [this]
-          refine JValue.obj d _ (by omega) (by simp) ?_ ?_ (Or.inl rfl)
+          have huniq : (G o).allowDup = true ∨
+              ((((r1.take (consumeWhitespace r1) ++ m0.1, m0.2) :: ms : List Mem).map fun m => nameKey o m.2.1)).Nodup := by
+            cases ha : o.allowDup with
+            | true => exact Or.inl ha
+            | false =>
+              right
+              have := hnod ha List.nodup_nil
+              simpa using this
+          refine JValue.obj d _ (by omega) (by simp) ?_ ?_ huniq
           · intro m hm
             simp only [List.mem_cons] at hm
             rcases hm with rfl | hm
@@ -535,9 +593,9 @@ theorem readValueTop_ok (o : VOpts) (fuel : Nat) (r : Bytes) (n : Nat) (h : read
       refine ⟨by omega, r.take (consumeWhitespace r), (c :: rest).take k, ws_take r, hjv, ?_⟩
       rw [List.take_add, hdrop]
 
-/-- `validText` (= Value.IsValid's framing) accepts only texts of the grammar (names not judged). -/
+/-- `validText` (= Value.IsValid's framing) accepts only texts of the grammar. -/
 theorem validText_sound (o : VOpts) (b : Bytes) (n : Nat) (h : validText o b = (n, .ok)) :
-    JText (G o) maxNestingDepth id b := by
+    JText (G o) maxNestingDepth (nameKey o) b := by
   unfold validText at h
   rcases hr : readValueTop o (fuelFor b) b with ⟨n0, e0⟩
   simp only [hr] at h
